@@ -133,6 +133,110 @@ func PipelineStepOutputs(stmts []*gripql.GraphStatement) map[string][]string {
 		case *gripql.GraphStatement_Has:
 			out[steps[i]] = []string{"*"}
 		}
+		// statements that read (or write) element properties need the data of
+		// the step they run on, and of every marked step they refer to
+		reads, fields := statementFields(gs)
+		if reads {
+			out[steps[i]] = []string{"*"}
+		}
+		for _, f := range fields {
+			if a, ok := asMap[jsonpath.GetNamespace(f)]; ok {
+				out[a] = []string{"*"}
+			}
+		}
+		// select(mark) makes the marked element current again: whatever the
+		// statements of that step need has to be loaded where the mark was set
+		if sel, ok := gs.GetStatement().(*gripql.GraphStatement_Select); ok {
+			if req, ok := out[steps[i]]; ok && len(req) > 0 {
+				for _, s := range sel.Select.Marks {
+					if a, ok := asMap[s]; ok {
+						out[a] = []string{"*"}
+					}
+				}
+			}
+		}
+	}
+	return out
+}
+
+// statementFields reports whether a statement reads or writes properties of
+// the current element, and lists the field paths it mentions.
+func statementFields(gs *gripql.GraphStatement) (bool, []string) {
+	switch stmt := gs.GetStatement().(type) {
+	case *gripql.GraphStatement_Has:
+		return true, hasExpressionKeys(stmt.Has)
+	case *gripql.GraphStatement_HasKey:
+		return true, protoutil.AsStringList(stmt.HasKey)
+	case *gripql.GraphStatement_Fields:
+		return true, nil
+	case *gripql.GraphStatement_Unwind:
+		return true, []string{stmt.Unwind}
+	case *gripql.GraphStatement_Render:
+		return true, templateFields(stmt.Render.AsInterface())
+	case *gripql.GraphStatement_Set:
+		return true, []string{stmt.Set.Key}
+	case *gripql.GraphStatement_Increment:
+		return true, []string{stmt.Increment.Key}
+	case *gripql.GraphStatement_Jump:
+		if stmt.Jump.Expression != nil {
+			return true, hasExpressionKeys(stmt.Jump.Expression)
+		}
+	case *gripql.GraphStatement_Aggregate:
+		fields := []string{}
+		for _, a := range stmt.Aggregate.Aggregations {
+			switch agg := a.Aggregation.(type) {
+			case *gripql.Aggregate_Term:
+				fields = append(fields, agg.Term.Field)
+			case *gripql.Aggregate_Histogram:
+				fields = append(fields, agg.Histogram.Field)
+			case *gripql.Aggregate_Percentile:
+				fields = append(fields, agg.Percentile.Field)
+			case *gripql.Aggregate_Field:
+				fields = append(fields, agg.Field.Field)
+			case *gripql.Aggregate_Type:
+				fields = append(fields, agg.Type.Field)
+			}
+		}
+		return true, fields
+	}
+	return false, nil
+}
+
+func hasExpressionKeys(h *gripql.HasExpression) []string {
+	if h == nil {
+		return nil
+	}
+	out := []string{}
+	switch e := h.Expression.(type) {
+	case *gripql.HasExpression_Condition:
+		out = append(out, e.Condition.Key)
+	case *gripql.HasExpression_And:
+		for _, x := range e.And.Expressions {
+			out = append(out, hasExpressionKeys(x)...)
+		}
+	case *gripql.HasExpression_Or:
+		for _, x := range e.Or.Expressions {
+			out = append(out, hasExpressionKeys(x)...)
+		}
+	case *gripql.HasExpression_Not:
+		out = append(out, hasExpressionKeys(e.Not)...)
+	}
+	return out
+}
+
+func templateFields(t interface{}) []string {
+	out := []string{}
+	switch x := t.(type) {
+	case string:
+		out = append(out, x)
+	case map[string]interface{}:
+		for _, v := range x {
+			out = append(out, templateFields(v)...)
+		}
+	case []interface{}:
+		for _, v := range x {
+			out = append(out, templateFields(v)...)
+		}
 	}
 	return out
 }
